@@ -837,6 +837,20 @@ func NAME(a int, b int) (res int) {
 	}
 	out = append(out, mk("float-const-close/large", SigFF, []string{"float-const"}, fcl("1000001.0"), fcl("1000002.0")))
 	out = append(out, mk("float-const-close/fraction", SigFF, []string{"float-const"}, fcl("0.30000001"), fcl("0.30000002")))
+	// the two ends of the range of small integers the default policy documents as kept
+	// ([-16, 16]): the same literal with the other sign
+	bs := func(k string) string {
+		return `func NAME(a int, b int) (res int) {
+	res = a * ` + k + `
+	if b > ` + k + ` {
+		res += 3
+	}
+	return res
+}
+`
+	}
+	out = append(out, mk("small-const/range-boundary-sign", SigII, []string{"small-const-boundary"}, bs("16"), bs("-16")))
+	out = append(out, mk("small-const/range-boundary-inside", SigII, []string{"small-const-boundary"}, bs("16"), bs("15")))
 	// a small constant whose type is a named integer type
 	nic := func(k, lim string) string {
 		return `func NAME(a int, b int) (res int) {
